@@ -1,6 +1,6 @@
 (** * C20 witnesses evaluated on the float instance (vm_compute). *)
 From Coq Require Import ZArith List Floats Bool.
-From Celer Require Import Base.Num Base.NumF Base.Stream Base.Vec3 C15.Samplers C20.Optical.
+From Celer Require Import Base.Num Base.NumF Base.Stream Base.Vec3 C15.Samplers C20.RotateVariants C20.Optical.
 Import ListNotations.
 Local Open Scope float_scope.
 
@@ -23,6 +23,7 @@ Definition f8_stream : list float :=
 
 Definition two_m10 : float := 0x1p-10.
 Definition two_m50 : float := 0x1p-50.
+Definition two_m40 : float := 0x1p-40.
 Definition canonicalb (u : float) : bool := (0 <=? u) && (u <? 1).
 
 Lemma scint_energy_refuted :
@@ -37,6 +38,9 @@ Proof.
   split; [vm_compute; reflexivity|vm_compute; reflexivity].
 Qed.
 
+(** The refutations below are about [rotate_old] (the code as pinned); the
+    repaired [rotate_new] handles the same inputs ([rotate_new_witnesses]). *)
+
 (** ** F10 on floats: step direction 0.115 degrees from +z with negative y.
     The photon direction's cosine to the step direction should be
     cos(theta) = 0.5 but is off by ~3e-3 relative (6e-3 at 0.28 degrees). *)
@@ -46,7 +50,7 @@ Definition min_acc_f : float := 0x1.47ae147ae147bp-8.
 Lemma rotate_polar_refuted_float :
   let rot := make_unit_vector f10_rot_f in
   let d := from_spherical 0.5 0 (* phi = 0 *) in
-  (0x1p-10 <? nabs (dot (rotate min_acc_f d rot) rot - 0.5)) = true.
+  (0x1p-10 <? nabs (dot (rotate_old min_acc_f d rot) rot - 0.5)) = true.
 Proof. vm_compute. reflexivity. Qed.
 
 (** ** rotate returns NaN when rot is z-aligned but its z component is one ulp
@@ -56,7 +60,7 @@ Proof. vm_compute. reflexivity. Qed.
 Definition is_nan (x : float) : bool := negb (x =? x).
 Lemma rotate_nan_refuted_float :
   let rot := V3 0 0 0x1.fffffffffffffp-1 in
-  let v := rotate min_acc_f (V3 1 0 0) rot in
+  let v := rotate_old min_acc_f (V3 1 0 0) rot in
   (nabs (dot rot rot - 1) <? 0x1p-50) = true /\
   is_nan (vx v) = true /\ is_nan (vy v) = true /\ is_nan (vz v) = true.
 Proof. vm_compute. repeat split; reflexivity. Qed.
@@ -72,9 +76,24 @@ Definition nan_dist : gdist (T:=float) :=
 Lemma cerenkov_nan_direction_refuted_float :
   exists (k : consts (T:=float)) es ns d s p s',
     material_ok es ns = true /\ forallb canonicalb s = true /\
-    ckv_photon min_acc_f k es ns d (ckv_construct k es ns d) s = Some (p, s') /\
+    ckv_photon_with (rotate_old min_acc_f) k es ns d (ckv_construct k es ns d) s = Some (p, s') /\
     is_nan (vx (ph_dir p)) = true.
 Proof.
   exists Kcgs, nan_es, nan_ns, nan_dist, [0.5; 0.25; 0.5; 0.5; 0.25].
   eexists; eexists. repeat split; vm_compute; reflexivity.
+Qed.
+
+(** the repaired rotate on the same three inputs: on the cone to 1e-12, finite *)
+Lemma rotate_new_witnesses :
+  let rot := make_unit_vector f10_rot_f in
+  let d := from_spherical 0.5 0 in
+  (nabs (dot (rotate_new min_acc_f d rot) rot - 0.5) <? two_m40) = true /\
+  let v := rotate_new min_acc_f (V3 1 0 0) (V3 0 0 0x1.fffffffffffffp-1) in
+  (is_nan (vx v) || is_nan (vy v) || is_nan (vz v)) = false /\
+  exists p s', ckv_photon_with (rotate_new min_acc_f) Kcgs nan_es nan_ns nan_dist
+                 (ckv_construct Kcgs nan_es nan_ns nan_dist) [0.5; 0.25; 0.5; 0.5; 0.25] = Some (p, s')
+               /\ is_nan (vx (ph_dir p)) = false.
+Proof.
+  cbv zeta. split; [vm_compute; reflexivity|]. split; [vm_compute; reflexivity|].
+  eexists; eexists; split; vm_compute; reflexivity.
 Qed.
